@@ -184,7 +184,8 @@ def check(case):
     except be.Stage as e:
         res["evals"] += 1
         if e.stage == "codegen":
-            add(f"codegen-raises:{cm.exc_site(e.exc)}", "C code generation raises although NumPy generation succeeds", {"ode": text}, "C source", cm.exc_name(e.exc), str(e), base=f"codegen-raises:{cm.exc_site(e.exc)}")
+            ck = f"codegen-raises:{cm.exc_site(e.exc)}{cm.codegen_exception_class(e.exc, cm.model_exprs(ode), ref)}"  # listed mechanisms get their suffix
+            add(ck, "C code generation raises although NumPy generation succeeds", {"ode": text}, "C source", cm.exc_name(e.exc), str(e), base=ck)
         else:
             kind = f"compile-error:{cm.compile_key(e.exc, set(ref.states) | set(ref.params) | set(ref.assigns))}"
             add(kind, "generated C does not compile with gcc -shared -fPIC -O0" + (f" (model in known-defect territory {terr})" if terr else ""), {"ode": text}, "compiles", str(e.exc), e.detail, base=kind)
